@@ -715,6 +715,18 @@ def c17(F: Facts, w):
     io_recs = [r for r in F.recs if r[2] == 'io']
     fired = [op for op in ops if op[3]]
     anyadapter = TypeAdapter(Any)
+
+    def _unserialisable(x):
+        if isinstance(x, dict):
+            return set(x) in ({'$bytes'}, {'$object'}) or any(_unserialisable(v) for v in x.values())
+        if isinstance(x, list):
+            return any(_unserialisable(v) for v in x)
+        return False
+
+    unser = {n for n, pl in w.payloads.items() if _unserialisable(pl[0]) or any(_unserialisable(v) for v in pl[1].values())}
+    n_unser_attempts = 0
+    for bus in wal_buses:
+        n_unser_attempts += sum(1 for (b, ev), lst in F.pe.items() if b == bus and ev in unser for p in lst if p[1] is not None and not p[3])
     for bus in wal_buses:
         path = f'/wal/{bus}.jsonl'
         # completed processings of this bus, in completion order
@@ -722,13 +734,14 @@ def c17(F: Facts, w):
         attempts = [r for r in io_recs if r[3] == 'mkdir' and r[4] == '/wal']
         # an attempt belongs to the bus whose processing window contains it: count per bus through opens
         opens = [r for r in io_recs if r[3] == 'open' and r[4] == path]
-        writes = [r for r in io_recs if r[3] == 'write' and r[4] == path and r[5] != 'write_error']  # those that reached the file
+        writes = [r for r in io_recs if r[3] == 'write' and r[4] == path and r[5] not in ('write_error', 'write_error_value')]  # those that reached the file
         my_texts = [t for t in texts if t[0] == path]
         full = [t for t in my_texts if t[2] == 'full']
         n_faults_here = sum(1 for r in io_recs if r[5] and (r[4] == path))
+        P_ser = [(s_, ev) for (s_, ev) in P if ev not in unser]
         if not fired:
-            if len(full) != len(P):
-                out.append(V('C17', 'line_count', (bus,), lines=len(full), processed=len(P)))
+            if len(full) != len(P_ser):
+                out.append(V('C17', 'line_count', (bus,), lines=len(full), processed=len(P_ser)))
         # every complete line: self-contained JSON object that validates back to the same event
         line_events = []
         for (_, text, kind), wr in zip(my_texts, writes):
@@ -782,8 +795,8 @@ def c17(F: Facts, w):
         # processing's handlers finished and before the processing ended
         good = [(n, wr) for n, wr in zip(line_events, writes) if n is not None]
         if not fired:
-            if [n for n, _ in good] != [ev for _, ev in P]:
-                out.append(V('C17', 'line_order', (bus,), lines=[n for n, _ in good][:8], processed=[ev for _, ev in P][:8]))
+            if [n for n, _ in good] != [ev for _, ev in P_ser]:
+                out.append(V('C17', 'line_order', (bus,), lines=[n for n, _ in good][:8], processed=[ev for _, ev in P_ser][:8]))
         for n, wr in good:
             win = [p for p in F.pe.get((bus, n), ()) if p[0] < wr[0] and (p[1] is None or p[1] > wr[0])]
             if not win:
@@ -806,6 +819,7 @@ def c17(F: Facts, w):
         if op[3]:
             cur_failed = True
     failed_attempts += 1 if cur_failed else 0
+    failed_attempts += n_unser_attempts  # serialising the line fails before any I/O is attempted
     if failed_attempts != nerr:
         out.append(V('C17', 'fault_not_reported', (failed_attempts, nerr), fired=[(o[1], o[3]) for o in fired][:5]))
     if fired or True:
